@@ -99,6 +99,11 @@ Catalogue == <<
     Def("Inner", TStruct(<<FOpt("deep", TRef("Deep")), F("iw", Str)>>)),
     Def("Deep", TStruct(<<F("label", Str), F("mark", Str)>>))>>,
     <<Rule("merge", "Root", "Deep", <<"inner", "deep">>), Rule("init", "Root", "", <<"ab", "other", "deep", "mark">>)>>),
+  \* `initialize` to false / 0 / "" on members whose declared default is NOT the zero value
+  Entry("init-falsy", <<
+    Def("Root", TStruct(<<FDef("editable", TBool, JBool(TRUE)), FDef("refresh", I64, JInt(1)), FDef("theme", Str, JStr("ab")),
+                          FDef("keep", TBool, JBool(TRUE)), F("w", Str)>>))>>,
+    <<Rule("init", "Root", "", <<"false", "editable">>), Rule("init", "Root", "", <<"0", "refresh">>), Rule("init", "Root", "", <<"", "theme">>)>>),
   \* references to NAMED constants: required (the builder fixes it), optional and nullable (an option that may be left alone)
   Entry("const-refs", <<
     Def("Root", TStruct(<<F("kind", TRef("Kind")), FOpt("altKind", TRef("Kind")), FOpt("version", TRef("Version")), F("title", Str),
@@ -111,7 +116,9 @@ Catalogue == <<
   \* references through two and three aliases before the struct / the constrained scalar, aliases declared before their targets
   Entry("aliases", <<
     Def("Root", TStruct(<<FOpt("ka", TRef("KidA")), F("kb", TRef("KidB")), F("kas", TArr(TRef("KidA"))), F("p", TRef("Port")),
-                          FOpt("pb", TRef("PortB")), F("w", Str)>>)),
+                          FOpt("pb", TRef("PortB")), F("w", Str), F("lb", TRef("Labels")), FOpt("nm", TRef("Names"))>>)),
+    \* NAMED collections with item constraints (the companion packages define the same names without constraints)
+    Def("Labels", TMap(TStr(1, -1))), Def("Names", TArr(TInt("int64", Ge(0), NoB))),
     Def("KidB", TRef("KidA")), Def("KidA", TRef("Kid")), Kid,
     Def("PortB", TRef("PortA")), Def("PortA", TRef("Port")), Def("Port", TInt("int64", Ge(0), Le(2)))>>, <<>>),
   \* OPTIONAL scalars (and an optional reference) promoted to constructor arguments
@@ -179,7 +186,7 @@ Catalogue == <<
 >>
 
 \* entries whose builders C09's machine does not drive (several builders per object / per-branch options): C14 only
-C14Only == {"flavours", "disjunction-lists"}
+C14Only == {"flavours"}
 
 (* ------------------------- defaults the requirement gives ---------------------- *)
 RECURSIVE ZeroOf(_, _), DefaultDoc(_, _)
@@ -349,7 +356,9 @@ PairsOf(S, t) == PairsFrom(S, t, Fuel) \cup PairsFrom(S, t, 0)
 \* what an `initialize` veneer makes the constructor set is part of every value the builder can produce
 InitsHold(i, key, v) ==
   \A j \in DOMAIN Catalogue[i].rules :
-    LET r == Catalogue[i].rules[j] IN (r.k = "init" /\ r.obj = key) => SameObj(AtPath(v, Tail(r.fields)), JStr(r.fields[1]))
+    LET r == Catalogue[i].rules[j] IN
+    (r.k = "init" /\ r.obj = key) =>
+      SameObj(AtPath(v, Tail(r.fields)), ConstOfText(Unwrap(STab[i], TypeAt(STab[i], key, STab[i][key], Tail(r.fields)).t), r.fields[1]))
 InitPairs ==
   /\ si \in (Ids \cap DOMAIN Catalogue) /\ lang = "go"
   /\ seq = <<>> /\ obj = Marker /\ errs = {} /\ raised = <<>> /\ bad = <<>>
